@@ -133,6 +133,15 @@ PROPS = {
         "assumptions": ["f32 -> U8/U16 (R32*_FLOAT) and the YUV matrices are modelled and compared but have no nearest-rounding theorem (2^32 / 2^24 input domains)",
                         "non-native channel layouts are C05's subject"],
     },
+    "C05": {
+        "kernel_sample": 60,
+        "harness_timeout": 3000,
+        "rule": "model comparison for all 73 formats: random surface data at sizes covering every residue modulo the block size (1..70 x 1..24), rectangles {whole, 1x1, full row, full column, random unaligned}, the 12 output colour formats, row pitch minimal or padded by 1..9 bytes, buffer offset 0..3, prefill 0x00/0xFF; "
+                "the buffer left by decode_rect (and by decode for the whole-surface cases) must equal blit(prefill, crop(rect, channel_map(native -> requested)(full native decode at the same precision))) byte for byte, including every byte outside the addressed rows; "
+                "wide rows (770..3100 pixels) crossing the 3072-byte conversion buffer for 12 representative formats; the reader must end exactly at the end of the surface; distinct = distinct case lines",
+        "trusted_base": BASE_TRUST + ["the full decode at the format's native channel layout is taken from the implementation as the reference image (its values are the subject of C03/C04)"],
+        "assumptions": ["native-layout full decodes of BC6H and ASTC are not independently modelled; for them C05 establishes only that every other way of asking agrees with that decode"],
+    },
     "C19": {
         "kernel_sample": 150,
         "rule": "systematic sweep of headers: every valid DXGI code x 5 alpha modes, the 27 table FourCCs + 60 boundary/arbitrary u32 FourCCs, every mask row with every one-bit perturbation of its red mask, alpha mask and flags and every bit count; "
